@@ -153,7 +153,7 @@ def run(ctx):
             worst_phase = max(worst_phase, mx)
             tolc = 1.2e-7 + 2 * math.pi * 2.0 ** -50 * mx * 4
             e = float(np.max(np.abs(chirp[:, i].reshape(N) - H[:, i])))
-            ctx.ratio(e, tolc)
+            ctx.ratio(e, tolc, 'chirp')
             if e > tolc:
                 ctx.fail('chirp_transfer_function', inp, impl=e, model=tolc, note=f'channel {i}')
                 bad = True
@@ -186,7 +186,7 @@ def run(ctx):
             continue
         if start is not None and want_len:
             e = abs(X.sec(y.start_time) - (X.sec(z.start_time) + Fraction(start_w) / rq))
-            ctx.ratio(e, ttol)
+            ctx.ratio(e, ttol, 'start_time')
             if e > ttol:
                 ctx.fail('start_time_not_advanced_by_front_crop', inp, impl=y.start_time.isot, model=start_w)
                 continue
@@ -200,7 +200,7 @@ def run(ctx):
             epsv = 1.2e-7 + 2 * math.pi * 2.0 ** -50 * worst_phase * 4 + (6e-7 if cdt is np.complex64 else 0)
             tolv = 4 * epsv * math.sqrt(N) * float(np.max(np.abs(x))) + 1e-12
             e = float(np.max(np.abs(np.asarray(y.data) - ref_y)))
-            ctx.ratio(e, tolv)
+            ctx.ratio(e, tolv, 'data')
             if e > tolv:
                 ctx.fail('dedispersed_data', inp, impl=e, model=tolv)
                 continue
@@ -227,7 +227,7 @@ def run(ctx):
                     width = abs(dtop - dbot) + 2
                     if start_w + width < N // 2 < stop_w - width:
                         ctx.count('round_trip_checked')
-                        ctx.ratio(e, tolr)
+                        ctx.ratio(e, tolr, 'round_trip')
                         if e > tolr:
                             ctx.fail('dm_then_minus_dm_does_not_restore', inp, impl=e, model=tolr)
 
